@@ -25,6 +25,13 @@ positions `f(…);`, `lv = f(…);`, `T x = f(…);`, `return f(…);` (the stat
 a loop becomes its own definition `f.loop_k fuel vars : Option (modified vars)` by recursion on the fuel
 (`none` = fuel exhausted) with `f.loop_k_defined`.  `static_cast<void>(0)` (an `assert` under NDEBUG) is a
 no-op.  Everything else is refused with file:line.
+
+Functions with character cursors (`const char*`, `const char**`) and functions that BUILD A STRING (`std::string&` /
+`std::back_insert_iterator<std::string>` parameters, local `std::string`s that are only appended to) are translated in JOIN
+style (`jblock` below; tools/GUIDE.md "character cursors" / "output strings"): one byte array `buf` for all pointers, the
+cursor cell and / or the output string as the state σ of the Outcome, loops with `return` / `throw` / `break`, calls that
+bind the callee's state to variables of the caller (`Outcome.bindVia` / `Flow.callVia`), `std::strlen`, and static local
+pointers to string literals as extra parameters (`f_lits` says where the literal lies in the array).
 """
 import re
 
